@@ -472,6 +472,13 @@ def build_probe(f: dict) -> Case:
         gt = {"pk.docs0": {"Kl9m0x0": {"kind": "class", "model": cm, "init": im, "cparams": ["c0"]}}}
         case = Case(cid="probe:" + f["id"], files={"src/pk/__init__.py": "", "src/pk/docs0.py": src}, opts=["--docstyle", "google"], meta={"gt": gt, "style": "google", "model": 999, "common": False, "probe": True}, reach=REACH)
         return case
+    if name == "bom_file_numpydoc":
+        fm = DocModel()
+        fm.summary = "D9m1x1s summary in a file with byte order mark"
+        src = f"def fn9m1x0() -> None:\n{pydoc(fm.render('numpydoc'), '    ')}"
+        gt = {"pk.docs0": {"fn9m1x0": {"kind": "function", "model": fm}, "<module>": {"kind": "module", "model": DocModel()}}}
+        data = b"\xef\xbb\xbf" + src.encode()
+        return Case(cid="probe:" + f["id"], files={"src/pk/__init__.py": "", "src/pk/docs0.py": {"hex": data.hex()}}, opts=["--docstyle", "numpydoc"], meta={"gt": gt, "style": "numpydoc", "model": 998, "common": False, "probe": True}, reach=REACH)
     raise ValueError(name)
 
 
